@@ -78,9 +78,11 @@ CLAIMS["C13"] = dict(
     technique="static analysis: comparison-site decision tables with operand roles from index-variable provenance, evaluation of the extracted index arithmetic, coupled-update / reset / field-completeness rules over the instantiated AST and CFG",
     text=("HEAP-DECISION (12 sift/heapify functions of both d-ary heaps: smaller child selected, sink iff child<value, rise iff value<parent, ties free), "
           "INDEX-INVERSE (parent(left(k)+j)==k), HANDLE-COUPLED / HANDLE-RESET / HANDLE-GROW for the addressable heap's handle table (found the build_heap defect, fixed), "
-          "RADIX-COUPLED (every bucket insertion/emptying keeps filled_, mins_ and size_ in step), CLEAR-COMPLETE (clear() resets every mutable state field). "
+          "RADIX-COUPLED (every bucket insertion/emptying keeps filled_, mins_ and size_ in step), CLEAR-COMPLETE (clear() of the heaps and clear_all() of the recursive bit array "
+          "reset every mutable state field), BUILD-REPLACES (build_heap never appends to old contents), CLZ-WIDTH (the width constant of `W-1-clz(v)` equals the width of the type clz "
+          "really sees, for 8..64-bit keys; found the narrow-key defect of the radix heap, fixed). "
           "Necessary conditions of top()/membership correctness on every path of every mutator."),
-    note=(TRUST + "Not decided: heap order over histories (induction argued from the local decisions), radix bucket index arithmetic (BucketComputation), "
+    note=(TRUST + "Not decided: heap order over histories (induction argued from the local decisions), the remaining radix bucket index arithmetic (row / bucket-in-row), "
           "monotonicity precondition of the radix heap. IntegerRank's sign-bit table is enforced by the library's own static_asserts (a broken table does not compile)."),
 )
 
